@@ -295,7 +295,7 @@ def postorder(repo, res, rule="TOPO"):
             ok = len(pushes) == 1 and A.before(c, pushes[0])
             res.check(ok, rule, f"{rule}:{fn.qname}:push-after-traversal#{i + 1}", (f"result.push follows the traversal of that vertex (post-order): dependencies precede their users" if ok else
                       f"{len(pushes)} result.push in the block of the traversal call" + ("; it PRECEDES the call: pre-order puts a definition before the definitions it uses, which are then expanded too late" if pushes and not A.before(c, pushes[0]) else "")), f"{fn.file}:{c['l']}")
-    res.floor(rule, n, 3)
+    res.floor(rule, n, 2)  # the recursive call in the DFS + at least one seeding site (two today; one when the seeding loops are merged)
     # the expansion loop in from_grammar iterates exactly this order
     fg = repo.fn("check::ValidGrammar::from_grammar")
     if fg is not None:
